@@ -176,13 +176,24 @@ def make_signature(alg: str, private_key, tbs: bytes) -> bytes:
     raise ValueError(alg)
 
 
-def sign_envelope(env: bytes, alg: str, private_key, kid, signature: bytes | None = None) -> bytes:
-    """Append one COSE_Sign1 block to an envelope, every other byte untouched."""
+def sign_envelope(env: bytes, alg: str, private_key, kid, signature: bytes | None = None, form: str = "standard") -> bytes:
+    """Append one COSE_Sign1 block to an envelope, every other byte untouched.  `form` selects one of the header
+    layouts other signers legally produce: "standard" (what suit-generator writes: alg and bstr-wrapped key id
+    protected), "alg_only" (no key id anywhere, as in the SUIT draft's examples), "kid_unprotected" (key id in the
+    unprotected bucket), "kid_raw" (key id a plain byte string, not an encoded integer)."""
     v = EnvelopeView(env)
-    protected = enc({1: SIGN_ALG_IDS[alg], 4: enc(kid)})
+    unprotected = {}
+    if form == "alg_only":
+        protected = enc({1: SIGN_ALG_IDS[alg]})
+    elif form == "kid_unprotected":
+        protected, unprotected = enc({1: SIGN_ALG_IDS[alg]}), {4: enc(kid)}
+    elif form == "kid_raw":
+        protected = enc({1: SIGN_ALG_IDS[alg], 4: b"key-" + str(kid).encode()})
+    else:
+        protected = enc({1: SIGN_ALG_IDS[alg], 4: enc(kid)})
     if signature is None:
         signature = make_signature(alg, private_key, sig_structure(protected, v.digest_bstr_content))
-    block = enc(Tag(18, [protected, {}, None, signature]))
+    block = enc(Tag(18, [protected, unprotected, None, signature]))
     wrapper = [Raw(el.raw) for el in v.wrapper] + [block]
     members = {}
     out_pairs = []
